@@ -456,6 +456,9 @@ def compile_and_run(vh, programs, workdir, py=None, opt=1, jobs=12, run=True, re
     env = erg_env(py)
     recs = [{"id": i, "src": src, "mode": "compile", "opt": opt, "render": render,
              "pyc": os.path.join(workdir, f"p{i}.pyc")} for i, src in enumerate(programs)]
+    if py:
+        for r_ in recs:
+            r_["py"] = py
     res = vh_all(vh, "check", recs, jobs=jobs, env=env)
     byid = {o["id"]: o for o in res}
     if len(byid) != len(recs):
@@ -500,6 +503,46 @@ def compile_and_run(vh, programs, workdir, py=None, opt=1, jobs=12, run=True, re
                 bad = pending[n]
                 got[bad] = {"id": bad, "out": "", "exc": "InterpreterDied" if rc != -999 else "Timeout", "exc_msg": err[-300:], "exit": rc}
                 pending = pending[n + 1:]
+            return got
+
+        with ThreadPoolExecutor(max_workers=len(parts)) as ex:
+            for g in ex.map(one, parts):
+                for i, r in g.items():
+                    out[i]["run"] = r
+    return out
+
+
+def transpile_and_run(vh, programs, workdir, py=None, jobs=12, target=None):
+    """Each source is transpiled in-process (`erg transpile`); produced scripts are executed by
+    `py` (validity as Python first).  Returns [{"transpile": harness result, "run": ..., "path": ...}]"""
+    env = erg_env(py)
+    ext = ".json" if target == "json" else ".py"
+    recs = [{"id": i, "src": src, "mode": "transpile", "out": os.path.join(workdir, f"t{i}{ext}")} for i, src in enumerate(programs)]
+    if target:
+        for r_ in recs:
+            r_["target"] = target
+    res = vh_all(vh, "check", recs, jobs=jobs, env=env)
+    byid = {o["id"]: o for o in res}
+    if len(byid) != len(recs):
+        raise ToolError(f"transpile harness returned {len(byid)} of {len(recs)} results")
+    out = [{"transpile": byid[i], "run": None, "path": recs[i]["out"]} for i in range(len(programs))]
+    ok = [i for i in range(len(programs)) if byid[i].get("ok")]
+    if ok and target != "json":
+        from concurrent.futures import ThreadPoolExecutor
+        runner = os.path.join(VERIF, "py", "verif", "pyrun.py")
+        parts = list(chunks(ok, max(1, (len(ok) + jobs - 1) // jobs)))
+
+        def one(part):
+            inp = "\n".join(json.dumps({"id": i, "py_src": recs[i]["out"]}) for i in part) + "\n"
+            p = subprocess.run([py or DEFAULT_PY, runner], input=inp, stdout=subprocess.PIPE, stderr=subprocess.PIPE, text=True,
+                               timeout=900, env=env, cwd=workdir)
+            got = {}
+            for l in p.stdout.splitlines():
+                if l.startswith("{"):
+                    r = json.loads(l)
+                    got[r["id"]] = r
+            for i in part:
+                got.setdefault(i, {"id": i, "out": "", "exc": "InterpreterDied", "exc_msg": p.stderr[-300:], "exit": p.returncode})
             return got
 
         with ThreadPoolExecutor(max_workers=len(parts)) as ex:
